@@ -2,7 +2,13 @@
 
    One case = one engine: the sequential result of every job before and after the storm, and
    for every round the concurrent results of all calls (job index, what Render returned) plus
-   a schedule over the call indices under which the model is run. *)
+   a schedule over the call indices under which the model is run.
+
+   [seq] is the result of every job rendered ALONE: in the storm's own process before the storm
+   (warm cases) or, for COLD cases, in a separate fresh process (so that in the storm's process
+   nothing - no Go type, no template, no helper - has been used before several renders use it
+   at once).  A goroutine may render its job several times per round; [calls] has one entry per
+   goroutine and DISTINCT result it got (a correct engine: exactly one per goroutine). *)
 From PV Require Import Base.Bytes Models.Sched Run.Verdict.
 
 Record round08 := {
